@@ -219,6 +219,28 @@ func instrumentFile(path string) (string, error) {
 				}
 			case *ast.ForStmt:
 				walk(s.Body.List)
+				// the condition and the post statement are evaluated again after every round: one more scheduling point
+				// at the end of the body (the point before the `for` statement covers the first evaluation; a `continue`
+				// jumps past this point — the rounds it ends are then covered by the points inside the body only)
+				var again []string
+				for _, n := range []ast.Node{s.Cond, s.Post} {
+					if n == nil {
+						continue
+					}
+					var st ast.Stmt
+					switch v := n.(type) {
+					case ast.Stmt:
+						st = v
+					case ast.Expr:
+						st = &ast.ExprStmt{X: v}
+					}
+					again = append(again, instrAccesses(recv, atomics[rt], st)...)
+				}
+				if len(again) > 0 {
+					label := fmt.Sprintf("%s.%s#%d|%s", rt, fd.Name.Name, k, strings.Join(again, ","))
+					k++
+					ins = append(ins, instrIns{fset.Position(s.Body.Rbrace).Offset, fmt.Sprintf("; verifhook.At(%q); ", label)})
+				}
 			case *ast.RangeStmt:
 				walk(s.Body.List)
 			case *ast.SwitchStmt:
